@@ -113,6 +113,7 @@ type pchunk struct {
 
 type parserCase struct {
 	Mode       string   `json:"mode"` // "conform" (C02) or "life" (C08)
+	ParserStall int     `json:"parser_stall_1_in,omitempty"`
 	Stream     string   `json:"stream"`
 	Chunks     []pchunk `json:"chunks"`
 	EndKind    int      `json:"end_kind"` // 0 EOF, 1 error, 2 (n>0,err), 3 Close() then nudge
@@ -278,6 +279,9 @@ func (w *parserWorld) Build(t *simrt.Tape, spec RunSpec) {
 	c.StallUs = []int64{1_000_000, 3_000_000, 10_000_000}[t.Draw(3)]
 	c.CloseAfter = t.Draw(8)
 	c.NudgeEOF = t.Draw(2) == 0
+	// stall fault: the parser's own goroutine is descheduled for up to 70
+	// simulated ms at some of its scheduling points (a loaded machine)
+	c.ParserStall = []int{0, 0, 0, 40, 12}[t.Draw(5)]
 }
 
 func indexESC(b []byte) int {
@@ -296,6 +300,10 @@ func (w *parserWorld) Start(s *simrt.Sched, res *RunResult) {
 	s.MaxSteps = 60000
 	w.rd = newSimReader(s)
 	c := &w.c
+	if c.ParserStall > 0 {
+		s.StallOneIn, s.StallMax, s.StallLib = c.ParserStall, 4, true
+		s.StallOK = func(t *simrt.Task) bool { return t.Lib && !strings.HasPrefix(t.Name, "timer:") }
+	}
 	s.Go("main", func() {
 		w.p = ansi.NewParser(w.rd)
 		s.Go("consumer", w.consumer)
@@ -503,6 +511,7 @@ func (w *parserWorld) consumer() {
 // ------------------------------------------------------------------- oracle
 
 func (w *parserWorld) Finish(s *simrt.Sched, res *RunResult) {
+	res.FaultN("parser-goroutine-stalled", s.Stalls)
 	c := &w.c
 	taskPanics(s, res, "panic")
 	res.Nontrivial = len(c.Chunks) > 1 || c.Consumer >= 2 || c.EndKind != 0
@@ -612,8 +621,15 @@ func (w *parserWorld) conformance(res *RunResult) {
 			g = c.EndGapUs
 		}
 		switch {
-		case g == 0:
+		case g == 0 && w.s.Stalls == 0:
 			gaps[i].kind = 0
+		case g == 0:
+			// the parser's goroutine was frozen at some point of this run:
+			// when an ESC ends a read, the bytes that follow at once may
+			// still be read only after the disambiguation delay, which the
+			// parser cannot tell from a late arrival - either outcome is
+			// accepted at a read boundary (never inside one read)
+			gaps[i].kind = 2
 		case time.Duration(g)*time.Microsecond >= 100*EscapeDelay &&
 			w.rd.readAt[ends[i]] == w.rd.arriveAt[ends[i]] && w.rd.nextCall[ends[i]] == w.rd.arriveAt[ends[i]]:
 			gaps[i].kind = 1
